@@ -207,6 +207,19 @@ impl Chunk {
     /// Optimize bytecode by combining common instruction patterns to avoid pushing/popping
     /// so much on the stack in the VM when we can
     pub(crate) fn optimize(&mut self) {
+        #[cfg(tera_verif)]
+        if !crate::verif::optimize_enabled() {
+            return;
+        }
+        self.optimize_inner();
+    }
+
+    #[cfg(tera_verif)]
+    pub(crate) fn verif_force_optimize(&mut self) {
+        self.optimize_inner();
+    }
+
+    fn optimize_inner(&mut self) {
         let mut old_instructions = std::mem::take(&mut self.instructions);
         let mut optimized = Vec::with_capacity(old_instructions.len());
         // Map from old instruction index to new instruction index
